@@ -68,11 +68,16 @@ impl HexOps for Hex {
         let b_s = self.0.get(4..6);
 
         if let (Some(r), Some(g), Some(b)) = (r_s, g_s, b_s) {
-            let r_u = u8::from_str_radix(r, 16).ok().unwrap_or_default();
-            let g_u = u8::from_str_radix(g, 16).ok().unwrap_or_default();
-            let b_u = u8::from_str_radix(b, 16).ok().unwrap_or_default();
+            // a channel is exactly two hexadecimal digits (from_str_radix alone would accept a sign)
+            let parse = |part: &str| {
+                if !part.chars().all(|c| c.is_ascii_hexdigit()) {
+                    return Err(Error::Hex(format!("{part} is not a hexadecimal value")));
+                }
 
-            return Ok((r_u, g_u, b_u));
+                u8::from_str_radix(part, 16).map_err(|err| Error::Hex(err.to_string()))
+            };
+
+            return Ok((parse(r)?, parse(g)?, parse(b)?));
         }
 
         Err(Error::Hex("Some color could not be parsed".to_string()))
